@@ -31,4 +31,17 @@ LEVEL["C04"] = dict(technique=T, text="AbyScan transcribes the bitmap scan and t
     "exactly once, with exact size hints and fused end (the pinned scan is rejected by the same configuration: defect D2 is found by the model); IterOK holds "
     "in every MCStore state. The real crate is driven into the occupancy patterns the scan distinguishes (bucket n-9, n-8, n-1, stride borders), through "
     "inserts/overwrites/deletes and emptied-again maps, for 12+ table sizes and all iterator flavours; conjuncts C04.items/count/hints/fused against the contract.", note=TRUST)
+LEVEL["C02"] = dict(technique=T, text="Contract AbyDurable/AbyDb inside the trace specification: dropping every handle makes the durable image equal the ideal map, "
+    "reopening (any parameters) yields it back. Histories close and reopen at random points (also right after deletes/overwrites, repeatedly), alternately "
+    "in-process and in a freshly spawned process, with reopen parameters drawn independently of the creation parameters; after each reopen len, get of every "
+    "table key, a full iteration and the independently decoded image are compared by TLC with the contract state (C02.content, C05.content).", note=TRUST)
+LEVEL["C03"] = dict(technique=T, text="Durability contract in the trace specification: after flush/sync_data/sync_all = ok (map or database level) and before the next update "
+    "the disk image is known to equal the ideal map. Every such call in the generated histories is a crash point: the directory is copied with all handles "
+    "alive and opened in another process (C03.snapshot), in a third of the histories the writer is SIGKILLed right after a database sync and the directory "
+    "itself is reopened; sync calls must reach the OS for each of the three files (C03.sync_calls, from the io-trace hook); created-only maps must snapshot to "
+    "a valid empty map.", note=TRUST + " The OS-sync evidence comes from the io-trace hook in VarFile (thorough: cross-checked with strace).")
+LEVEL["C16"] = dict(technique=T, text="Fault mode of the durability contract: with RLIMIT_FSIZE lowered to a threshold (SIGXFSZ ignored, full buffering so only the flush writes) "
+    "one flush/sync runs; if it answers ok a snapshot must equal the ideal map (C16.reported), all reads afterwards equal the contract (C16.view), and after "
+    "the limit is lifted the next flush must be ok and its snapshot equal the ideal map (C16.recover). Thresholds sweep 0..beyond the file ends incl. header "
+    "and 128 KiB chunk borders for three workload shapes so that each of the three files is in turn the first to fail.", note=TRUST + " Kernel semantics of RLIMIT_FSIZE.")
 NA = {}
